@@ -262,18 +262,25 @@ class RawVoltageBackend(object):
             Dictionary of header values to set.
         """
         # Set header values determined by pipeline parameters
+        # Values inherited from an input recording are tagged; values supplied by the user are kept
         if 'TELESCOP' not in header_dict:
             header_dict['TELESCOP'] = 'SETIGEN'
-        elif self.input_header_dict is not None and 'SETIGEN' not in self.input_header_dict['TELESCOP']:
-            header_dict['TELESCOP'] = f"{self.input_header_dict['TELESCOP'].strip()}_SETIGEN"
+        elif (self.input_header_dict is not None
+                and header_dict['TELESCOP'] == self.input_header_dict.get('TELESCOP', '').strip()
+                and 'SETIGEN' not in header_dict['TELESCOP']):
+            header_dict['TELESCOP'] = f"{header_dict['TELESCOP']}_SETIGEN"
         if 'OBSERVER' not in header_dict:
             header_dict['OBSERVER'] = 'SETIGEN'
-        elif self.input_header_dict is not None and 'SETIGEN' not in self.input_header_dict['OBSERVER']:
-            header_dict['OBSERVER'] = f"{self.input_header_dict['OBSERVER'].strip()}_SETIGEN"
+        elif (self.input_header_dict is not None
+                and header_dict['OBSERVER'] == self.input_header_dict.get('OBSERVER', '').strip()
+                and 'SETIGEN' not in header_dict['OBSERVER']):
+            header_dict['OBSERVER'] = f"{header_dict['OBSERVER']}_SETIGEN"
         if 'SRC_NAME' not in header_dict:
             header_dict['SRC_NAME'] = 'SYNTHETIC'
-        elif self.input_header_dict is not None and 'SYNTHETIC' not in self.input_header_dict['SRC_NAME']:
-            header_dict['SRC_NAME'] = f"{self.input_header_dict['SRC_NAME'].strip()}_SETIGEN"
+        elif (self.input_header_dict is not None
+                and header_dict['SRC_NAME'] == self.input_header_dict.get('SRC_NAME', '').strip()
+                and 'SYNTHETIC' not in header_dict['SRC_NAME']):
+            header_dict['SRC_NAME'] = f"{header_dict['SRC_NAME']}_SETIGEN"
         
         # Should not be able to manually change these header values
         header_dict['NBITS'] = self.num_bits
